@@ -414,6 +414,28 @@ func checkMain(args []string) {
 			fmt.Println("cannot baseline:", ro.undecided)
 			os.Exit(2)
 		}
+		// every assertion clause must have produced an obligation: a site the executor never reaches (dead in the
+		// model) would otherwise be silently unchecked
+		for _, fr := range ro.frs {
+			if fr.Spec == nil || fr.Err != "" {
+				continue
+			}
+			for _, a := range fr.Spec.Asserts {
+				if a.Dead || a.Assume {
+					continue
+				}
+				found := false
+				for _, or := range fr.Obls {
+					if strings.Contains(or.Name, "#assert:"+a.Clause.Label) || strings.Contains(or.Name, "/assert:"+a.Clause.Label) {
+						found = true
+					}
+				}
+				if !found {
+					fmt.Printf("cannot baseline: %s: assertion %s produced no obligation (its site is unreachable in the model)\n", fr.Name, a.Clause.Label)
+					os.Exit(2)
+				}
+			}
+		}
 		var names, unclaimed []string
 		findings := loadFindings(root)
 		for _, fr := range ro.frs {
